@@ -432,3 +432,11 @@ def ok_or_subject(t):
             if p_[0] == "field" and p_[1][0] == "variant" and p_[1][2] == "Some":
                 return p_[1][1]
     return None
+
+
+def unopt(t):
+    """see through `Option<&T>::copied()` / `cloned()`: the same Option, by value"""
+    s = P.strip(t, calls=False)
+    while s[0] == "call" and s[1] in ("std::option::Option::<&T>::copied", "std::option::Option::<&T>::cloned") and len(s[2]) == 1:
+        s = P.strip(s[2][0], calls=False)
+    return s
